@@ -48,8 +48,8 @@ func itoa(v int64) string {
 	return string(b)
 }
 
-func exact(k int64) ival   { return ival{k, k, true, true} }
-func top() ival            { return ival{} }
+func exact(k int64) ival    { return ival{k, k, true, true} }
+func top() ival             { return ival{} }
 func rng(lo, hi int64) ival { return ival{lo, hi, true, true} }
 
 func typeRange(t types.Type) ival {
@@ -110,11 +110,11 @@ func maxI(a, b int64) int64 {
 }
 
 type boundsCtx struct {
-	c      *Ctx
-	fn     *ssa.Function
-	sizeHi int64 // hull of (Base).Size over known bases
-	sizeLo int64
-	depth  int
+	c       *Ctx
+	fn      *ssa.Function
+	sizeHi  int64 // hull of (Base).Size over known bases
+	sizeLo  int64
+	depth   int
 	at      *ssa.BasicBlock
 	inGuard bool
 }
